@@ -1030,7 +1030,7 @@ func (e *integEngine) loop() {
 				e.stuck()
 				break
 			}
-			if len(faults) > 0 && prof.CancelAt < 0 && prof.WFault > 0 && c.Ch.Bool(prof.WFault, prof.WFault+30, "idle-fault") {
+			if len(faults) > 0 && (prof.CancelAt < 0 || e.faultsFired > 0) && prof.WFault > 0 && c.Ch.Bool(prof.WFault, prof.WFault+30, "idle-fault") {
 				e.fireFault(faults[0])
 				continue
 			}
@@ -1055,7 +1055,7 @@ func (e *integEngine) loop() {
 		} else {
 			w = append(w, prof.WAdvance)
 		}
-		if len(faults) > 0 && prof.CancelAt < 0 {
+		if len(faults) > 0 && (prof.CancelAt < 0 || e.faultsFired > 0) {
 			w = append(w, prof.WFault)
 		} else {
 			w = append(w, 0)
